@@ -70,7 +70,17 @@ def cmp_tables(ctx):
     open(inp, "w").write("\n".join(lines) + "\n")
     env = dict(os.environ, ASAN_OPTIONS=ASAN_OPTS + ":handle_segv=1", LC_ALL="C")
     r = subprocess.run([exe, inp], capture_output=True, env=env, timeout=1800, cwd=ctx.rundir)
-    tables = [json.loads(l) for l in r.stdout.decode("latin-1").splitlines() if l.startswith("{")]
+    lines_out = [json.loads(l) for l in r.stdout.decode("latin-1").splitlines() if l.startswith("{")]
+    tables = [t for t in lines_out if "cls" in t]
+    probes = [t for t in lines_out if "dupprobe" in t]
+    ctx.add("dup_capacity_probes", len(probes))
+    if len(probes) != 24:
+        raise Broken("dup probes: %d of 24 ran" % len(probes))
+    for pr in probes:
+        if pr["verdict"] != "ok":
+            cls_ = "slack>=4096" if pr["slack"] >= 4096 else ("slack>0" if pr["slack"] else "exact")
+            ctx.report("dup %s [%s] %s" % (pr["dupprobe"], cls_, pr["verdict"]),
+                       "%s: dup of a value held with %d bytes of spare capacity: %s" % (pr["dupprobe"], pr["slack"], pr["verdict"]), pr)
     if len(tables) != len(plan):
         raise Broken("cmp_table produced %d tables for %d classes; stderr: %s" % (len(tables), len(plan), r.stderr.decode("latin-1")[-1500:]))
     tr = os.path.join(ctx.rundir, "cmp-tables.ndjson")
